@@ -68,6 +68,49 @@ def run(ctx):
               key_of=lambda tr, l, c: "trace:%s:%s" % (c, tr["consts"]["site"].split("_verify")[0]),
               what_of=lambda tr, l, c: "the %s result reports happiness %s for the share map %s; TLC clause %s" % (
                   tr["consts"]["site"], tr["events"][l - 1]["got"], json.dumps(tr["consts"]["adj"]), c))
-    ctx.assumptions += ["TLC and the CommunityModules", "the three Spec definitions of maximum matching agree beyond the sizes TLC compared them on "
+    # the call site "used for upload decisions": the Encoder re-evaluates the value at every loss of a share writer
+    lconsts = dict(NSrv=3, NSh=3, Canon="TRUE", MaxSeq=3, Maximal="TRUE") if q else dict(NSrv=4, NSh=3, Canon="TRUE", MaxSeq=3, Maximal="FALSE")
+    ctx.constants["GenEncoderLoss"] = lconsts
+    lcfg = "SPECIFICATION Spec\nCONSTANTS\n" + "".join("  %s = %s\n" % kv for kv in lconsts.items()) + \
+           "INVARIANT C08_TableIsMatching\nINVARIANT C08_LossMonotone\nINVARIANT C08_DoomMeaning\nCHECK_DEADLOCK FALSE\n"
+    lcases, r = ctx.gen("immutable/GenEncoderLoss", lcfg, outname="loss_cases.ndjson", timeout=3000, coverage=False)
+    lres = ctx.impl("harness/encoder_loss_driver.py", [], input_obj={"cases": lcases}, timeout=3000)["results"]
+    if len(lres) != len(lcases):
+        raise core.MachineryError("encoder_loss_driver returned %d results for %d cases" % (len(lres), len(lcases)))
+    ndoom = 0
+    for cs, rr in zip(lcases, lres):
+        writers = sorted(int(sh) for sh in cs["cfg"] if cs["cfg"][sh]["w"])
+        multi = any(len(cs["cfg"][sh]["pre"]) + (1 if cs["cfg"][sh]["w"] else 0) >= 2 for sh in cs["cfg"])
+        ctx.count(json.dumps([cs["cfg"], cs["happy"], cs["seq"]], sort_keys=True) if (multi and cs["seq"]) else None)
+        ndoom += cs["doom"] != 0
+        what = None
+        if rr["kind"] in ("raised", "none"):
+            what = "encoder_%s_%s" % (rr["kind"], rr.get("cls", ""))
+        elif cs["doom"] == 0:
+            if rr["kind"] != "success":
+                what = "gave_up_though_happy"
+            elif rr["failed"] != len(cs["seq"]) or rr["placed"] != sorted(set(writers) - set(cs["seq"])):
+                what = "shares_placed_differ"
+        else:
+            if rr["kind"] == "success" or rr["failed"] > cs["doom"]:
+                what = "continued_though_unhappy"
+            elif rr["cls"] != "UploadUnhappinessError":
+                what = "failure_class_%s" % rr["cls"]
+            elif rr["failed"] < cs["doom"]:
+                what = "gave_up_though_happy"
+        if what:
+            ctx.report("case:C08_upload_decision:%s" % what,
+                       "Encoder with share map %s, happy %d, writers lost in the order %s (phases %s): the Spec's happiness after each loss is %s "
+                       "(doomed at loss %d, 0 = never); the real upload ended as %s after %d failed writer calls, placed %s"
+                       % (json.dumps(cs["cfg"], sort_keys=True), cs["happy"], cs["seq"], rr["phases"], cs["hs"], cs["doom"],
+                          rr["kind"] + (":" + rr.get("cls", "") if rr.get("cls") else ""), rr["failed"], rr["placed"]),
+                       replay={"kind": "gen-case", "driver": "harness/encoder_loss_driver.py", "case": cs, "got": rr})
+    ctx.notes.append("upload decisions: %d Encoder runs (share maps over %d servers x %d shares modulo renaming of servers, every happy the map "
+                     "satisfies, every order of writer losses up to the dooming one); %d of them doomed by a loss"
+                     % (len(lcases), lconsts["NSrv"], lconsts["NSh"], ndoom))
+    mid = len(lcases) // 2
+    ctx.sample({"encoder_loss_case": lcases[mid], "real": lres[mid]})
+    ctx.assumptions += ["the writers of an upload are played by recording fakes (harness/encoder_driver.py); each loss happens in a phase of its own",
+                        "TLC and the CommunityModules", "the three Spec definitions of maximum matching agree beyond the sizes TLC compared them on "
                         "(Def vs Rec: <= %d edges; Rec vs Aug: every generated case and every recorded relation with <= 7 servers and <= 30 edges)" % consts["DefLimit"],
                         "PYTHONHASHSEED=0: set iteration orders are varied through server id types and salts, not through the hash seed"]
